@@ -61,7 +61,7 @@ RULE = ("chain: proposal x num_particles {1,2,5} x resample_threshold {0,1/2,1} 
         "{0,1/2,1} x n in {1,2,3} x concentration update on/off x max_time {inf,0,1e-7} (the 'core'), with thin {1,3}, burnin {0(API),1,2}, "
         "num_iters {1,4}, num_samples_data_point / prune_regraph {0,1,2} (and -1), samples {1,2}, grid {5,11}, numpy seed drawn per case; quick = "
         "every single-factor change of the default configuration + a pairwise covering set of all factor values + the full 648-"
-        "configuration product proposal x N x threshold x outlier_prob x subtree_prob on 1 and 2 data points + a seeded quarter of "
+        "configuration product proposal x N x threshold x outlier_prob x subtree_prob on 1 and 2 data points + a seeded eighth of "
         "the core product; thorough = the full core product twice (two data/numpy seeds, other factors drawn) + the full product of "
         "the other factors on 24 core picks; both tiers add random corners on 4-6 data points with up to 10 particles (60 / 1500).  Data: exact dyadic likelihoods (harness.common.gen_dataset) or load_data on a TSV of "
         "1-3 mutations x 1-2 samples with boundary counts.  A case is non-trivial when every option is in the CLI-accepted range, "
@@ -726,7 +726,7 @@ def cases(tier, rnd):
     core = _product(CORE)
     if tier == "quick":
         rnd.shuffle(core)
-        out += [_cfg(rnd, **c, **_rand_other(rnd)) for c in core[: len(core) // 4]]
+        out += [_cfg(rnd, **c, **_rand_other(rnd)) for c in core[: len(core) // 8]]
         n_tsv = 40
         n_big = 60
     else:
